@@ -340,6 +340,8 @@ class CallMixin:
         return env
 
     def call_function(self, f, selfv, args, kwargs, node, concrete, closure=None):
+        if self.cfg.no_inline and self.frames and self.frames[-1].func is not None and closure is None:
+            return self.opaque_call(f, selfv, args, kwargs, node, raises=False)
         if f.qual in self.cfg.opaque or (f.module.name in self.cfg.opaque_modules and f.cls is None
                                          and (not self.frames or self.frames[-1].module.name != f.module.name)
                                          and self.frames[0].module.name != f.module.name):
@@ -402,7 +404,7 @@ class CallMixin:
         finally:
             self.frames.pop()
 
-    def opaque_call(self, f, selfv, args, kwargs, node):
+    def opaque_call(self, f, selfv, args, kwargs, node, raises=True):
         spec = self.cfg.opaque.get(f.qual)
         self.emit(Event("ocall", f.qual, selfv, args[0] if args else None, tuple(args), kwargs, site=self.here(node)))
         ty = ()
@@ -411,7 +413,7 @@ class CallMixin:
                 ty = [py("list"), ("elemty", spec[1])]
             else:
                 ty = [spec]
-        for rc in sorted(self.cfg.raises_of(f)):
+        for rc in (sorted(self.cfg.raises_of(f)) if raises else ()):
             n = len([x for x in self.events if x.site == self.here(node)])
             if self.decide(("oraise", f.qual, self.here(node), n, rc)):
                 fr = self.frames[-1]
@@ -499,7 +501,7 @@ class CallMixin:
         if self.cfg.model_layer_raises:
             rs = self.cfg.layer_raises.get(op, ())
             for rc in sorted(rs):
-                if self.would_catch(rc):
+                if self.would_catch(rc, specific=True):
                     if self.decide(("lraise", ev.site, len([x for x in self.events if x.site == ev.site]), rc)):
                         self.raise_exc(rc, node, explicit=False)
         kt = key.t if key is not None else None
@@ -552,14 +554,14 @@ class CallMixin:
             return V(("lres", member, rt, argt), tys, dep)
         return V(("lres", member, rt, argt, self.fresh(node)), tys, dep)
 
-    def would_catch(self, cls):
+    def would_catch(self, cls, specific=False):
         for c in self.outer_catch:
-            if c == "*" or self.exc_is(cls, c):
+            if (c == "*" and not specific) or self.exc_is(cls, c):
                 return True
         for fr in reversed(self.frames):
             for caught in reversed(fr.try_catch):
                 for c in caught:
-                    if c == "*" or self.exc_is(cls, c):
+                    if (c == "*" and not specific) or self.exc_is(cls, c):
                         return True
         return False
 
@@ -577,8 +579,17 @@ class CallMixin:
         self._remember([recv] + list(args))
         st = self.store
         skind = "attr" if kind == "attrs" else "child"
-        if self.cfg.model_layer_raises and op == "__getitem__" and self.would_catch("KeyError"):
-            pass
+        fr = self.frames[-1]
+        if fr.try_catch and eff in ("R",) or (fr.try_catch and op in ("__delitem__", "__setitem__")):
+            for rc in sorted(fr.try_catch[-1]):
+                if rc != "*" or op == "__delitem__":
+                    if self.decide(("rraise", kind + "." + op, rt, kt, rc)):
+                        marker = V(("rraise", kind + "." + op, rt, kt), (), dep)
+                        fr.ctrl.append((marker, True))
+                        try:
+                            self.raise_exc("Exception" if rc == "*" else rc, node, explicit=False)
+                        finally:
+                            fr.ctrl.pop()
         if op == "__setitem__":
             st[(rt, skind, kt)] = args[1] if skind == "attr" else PRESENT
             return NONE
@@ -662,6 +673,18 @@ class CallMixin:
                 ty = [py("bool")]
         self.emit(Event("ext", dotted, None, args[0] if args else None, tuple(args), kwargs, site=self.here(node)))
         leaf = dotted.split(".")[-1]
+        # an external call directly inside a try block with specific handlers may raise what they catch
+        fr = self.frames[-1]
+        if fr.try_catch:
+            for rc in sorted(fr.try_catch[-1]):
+                if rc != "*":
+                    if self.decide(("xraise", dotted, tuple(a.t for a in args), rc)):
+                        marker = V(("xraise", dotted, tuple(a.t for a in args)), (), dep)
+                        fr.ctrl.append((marker, True))
+                        try:
+                            self.raise_exc(rc, node, explicit=False)
+                        finally:
+                            fr.ctrl.pop()
         if leaf in ("uuid4",):
             return V(("call", "uuid4", (), self.fresh(node)), [py("uuid")], dep)
         pure = ("call", short, tuple(a.t for a in args) + tuple(("kw", k, v.t) for k, v in sorted(kwargs.items())))
@@ -784,6 +807,19 @@ class CallMixin:
                 return FALSE
         if a.t[0] in ("inst", "enum") and not repo:
             pass
+        tys = self.ty(a)
+        if tys and all(t[0] == "py" for t in tys):
+            kinds = {t[1] for t in tys}
+            pyk = {"py:int": {"int", "bool"}, "py:str": {"str"}, "py:float": {"float"}, "py:bool": {"bool"},
+                   "py:bytes": {"bytes"}, "py:list": {"list"}, "py:tuple": {"tuple"}, "py:dict": {"dict"}}
+            simple = {"int", "str", "float", "bool", "bytes", "list", "tuple", "dict"}
+            if kinds <= simple:
+                if all(n in self.M.classes for n in names):
+                    return FALSE
+                if all(n in pyk for n in names):
+                    hit = [bool(kinds & pyk[n]) for n in names]
+                    if len(kinds) == 1:
+                        return const(any(hit))
         key = "|".join(sorted(names))
         self._remember([a])
         return V(("isinst", a.t, key), [py("bool")], a.dep)
